@@ -88,7 +88,7 @@ DIRECTED = [
 
 def gen_cases(tier, seed):
     rnd = random.Random(f"C04:{seed}")
-    n = 1500 if tier == "quick" else 30000
+    n = 1500 if tier == "quick" else 90000
     cases = []
     for d in DIRECTED:
         for kind in ("dense", "gap_start", "gap_middle", "high", "sparse"):
